@@ -18,11 +18,10 @@
     h2_recv_headers() / h2_recv_data() length checks,
       h2_recv_continuation()            (h2.c)           -> `h2HeadersLen`, `h2DataLen`, `h2Cont`
   http_range.c is modelled in Model/Range.lean (C15); its arithmetic is re-stated in checked
-  form in `rangeNextChk`, `rangeStepChk`, `rangeOverlapsChk` below.
+  form in Model/ArithRange.lean (kept out of this file so that the driver does not depend on it).
   Limits and guards come from Extracted/ArithConst.lean (regenerated from the source each run).
 -/
 import LtVerif.Model.Basic
-import LtVerif.Model.Range
 import LtVerif.Extracted.ArithConst
 namespace LtVerif
 namespace Arith
@@ -494,43 +493,6 @@ def h2Cont (fsize : Nat) (buf : Bytes) : ContOut :=
             let acc := setU24 (m - 9) ++ acc.drop 3
             let tail := if n < buf.length then buf.drop n else []
             .merged m (acc ++ tail) (loops ≥ 32)
-
-/-! ### http_range.c arithmetic in checked form (over Model/Range.lean) -/
-
-open Range in
-/-- the values http_range_parse_next() computes from the first strtoll() result `n`
-    (suffix form): `-n`, `len + n`, `len - 1` -/
-def rangeSuffixChk (n len : Int) : R Rng :=
-  if n = LLONG_MIN then .ub "-LLONG_MIN"
-  else
-    let neg := -n
-    if !inI64 neg then .ub "-n"
-    else
-      let l1 := len - 1
-      if !inI64 l1 then .ub "len-1"
-      else if len > neg then
-        let a := len + n
-        if !inI64 a then .ub "len+n" else .ok (a, l1)
-      else .ok (0, l1)
-
-open Range in
-/-- `ranges[n-2]-80` in http_range_parse() -/
-def rangeStepChk (st : PSt) (rg : Rng) : R (PSt × Bool) :=
-  match st.rs with
-  | [] => .ok (parseStep st rg)
-  | prev :: _ =>
-    if prev.1 ≤ rg.1 then
-      let t := rg.1 - 80
-      if !inI64 t then .ub "ranges[n-2]-80" else .ok (parseStep st rg)
-    else .ok (parseStep st rg)
-
-open Range in
-/-- `ranges[j]-80` / `b-80` in http_range_coalesce_unsorted() -/
-def rangeOverlapsChk (b e : Int) (r : Rng) : R Bool :=
-  if b ≤ r.1 then
-    (if !inI64 (r.1 - 80) then .ub "ranges[j]-80" else .ok (overlaps b e r))
-  else
-    (if !inI64 (b - 80) then .ub "b-80" else .ok (overlaps b e r))
 
 end Arith
 end LtVerif
